@@ -210,6 +210,98 @@ def _list_inst(tier):
     return base
 
 
+def make_inverse(mode, divs, pitches, ts0=(4, 4), ts1=None, omax=4, dmax=4, give_divs=True):
+    """note_array_to_score followed by note_array returns the same onsets, durations and pitches.  The inverse
+    direction is a chain of structured-array kernels (lexsort, recfunctions, spelling / voice estimation): the note
+    times are symbolic on a small integer grid and realised (the solver enumerates the grid)."""
+    n = len(pitches)
+
+    def h(o0: int, d0: int, o1: int, d1: int, o2: int, d2: int):
+        import numpy as np
+        import partitura.score as S
+        from engine import sym
+        from engine.hdef import exclude_known
+        from partitura.musicanalysis.note_array_to_score import note_array_to_score
+
+        O, D = [o0, o1, o2], [d0, d1, d2]
+        for i in range(3):
+            if i < n:
+                require(0 <= O[i] <= omax)
+                require(0 <= D[i] <= dmax)
+            else:
+                require(O[i] == 0)
+                require(D[i] == 0)
+        O = [int(sym.realize(x)) for x in O[:n]]
+        D = [int(sym.realize(x)) for x in D[:n]]
+        rows = list(zip(O, D, pitches))
+        exp = sorted((o, d, p) for (o, d, p) in rows)
+        if mode == "ts":
+            # a reference part with a signature change at the second barline provides beat and signature columns
+            part = S.Part("P", quarter_duration=divs)
+            bar0 = ts0[0] * 4 * divs // ts0[1]
+            part.add(S.TimeSignature(*ts0), 0)
+            if ts1:
+                part.add(S.TimeSignature(*ts1), bar0)
+            require(all(d > 0 for d in D))
+            for i, (o, d, pch) in enumerate(rows):
+                part.add(S.Note("CDEFGAB"[pch % 7], 4, id="n%d" % i, voice=1), o + (bar0 if i else 0), o + (bar0 if i else 0) + d)
+            S.add_measures(part)
+            fields = ["onset_div", "duration_div", "onset_beat", "duration_beat", "pitch", "ts_beats", "ts_beat_type"]
+            src = part.note_array(include_time_signature=True)[fields].copy()
+            if give_divs:
+                sc = must_not_raise(note_array_to_score, src, divs=divs, _what="note_array_to_score")
+            else:
+                # divisions inferred from the first note with a duration
+                exclude_known("KF-C05-inverse-divs-from-first-note",
+                              ts1 is not None and ts1[1] != ts0[1] and O[0] + D[0] > bar0)
+                sc = must_not_raise(note_array_to_score, src, _what="note_array_to_score")
+            out = sc.note_array(include_time_signature=True)
+            dfields = ["onset_div", "duration_div", "pitch"]
+            a = sorted(tuple(int(x) for x in r) for r in src[dfields].tolist())
+            b = sorted(tuple(int(x) for x in r) for r in out[dfields].tolist())
+            check(a == b, "note array of the rebuilt score differs (onsets, durations in divisions, pitches)", a, b)
+            # the array says which signature holds at each note, not where it changed: beats and signatures are
+            # comparable only when a note sits on the barline of the change
+            if ts1 is None or any(o == 0 for o in O[1:]):
+                a = sorted(tuple(round(float(x), 5) for x in r) for r in src[fields].tolist())
+                b = sorted(tuple(round(float(x), 5) for x in r) for r in out[fields].tolist())
+                check(a == b, "note array of the rebuilt score differs (beats, signatures)", a, b)
+            return [list(x) for x in b]
+        if mode == "div":
+            na = np.array(rows, dtype=[("onset_div", "i4"), ("duration_div", "i4"), ("pitch", "i4")])
+            sc = must_not_raise(note_array_to_score, na, divs=divs, _what="note_array_to_score")
+        elif mode == "beat":
+            na = np.array([(o / divs, d / divs, p) for (o, d, p) in rows],
+                          dtype=[("onset_beat", "f4"), ("duration_beat", "f4"), ("pitch", "i4")])
+            sc = must_not_raise(note_array_to_score, na, _what="note_array_to_score")
+        else:
+            exclude_known("KF-C05-inverse-only-grace-notes", all(d == 0 for d in D))
+            na = np.array([(o, d, o / divs, d / divs, p) for (o, d, p) in rows],
+                          dtype=[("onset_div", "i4"), ("duration_div", "i4"), ("onset_beat", "f4"), ("duration_beat", "f4"), ("pitch", "i4")])
+            sc = must_not_raise(note_array_to_score, na, _what="note_array_to_score")
+        out = sc.note_array()
+        check(len(out) == n, "number of rows", len(out), n)
+        got = sorted((float(r["onset_quarter"]) * divs, float(r["duration_quarter"]) * divs, int(r["pitch"])) for r in out)
+        for g, e in zip(got, exp):
+            check(abs(g[0] - e[0]) < 1e-4 and abs(g[1] - e[1]) < 1e-4 and g[2] == e[2],
+                  "onsets, durations or pitches change through note_array_to_score", mode, divs, got, exp)
+        return [[float(x) for x in g] for g in got]
+
+    return h
+
+
+def _inv_inst(tier):
+    out = [{"mode": "div", "divs": 2, "pitches": [60, 67]}, {"mode": "beat", "divs": 4, "pitches": [60, 67]},
+           {"mode": "both", "divs": 3, "pitches": [72, 72]}, {"mode": "ts", "divs": 2, "pitches": [60, 64], "ts0": [3, 4], "ts1": [3, 8]},
+           {"mode": "ts", "divs": 2, "pitches": [60, 64], "ts0": [3, 4], "ts1": [3, 8], "give_divs": False, "omax": 5}]
+    if tier != "quick":
+        out += [{"mode": "div", "divs": 1, "pitches": [60]}, {"mode": "beat", "divs": 3, "pitches": [64, 64, 60], "omax": 2, "dmax": 3},
+                {"mode": "both", "divs": 4, "pitches": [60, 64, 67], "omax": 2, "dmax": 3}, {"mode": "div", "divs": 4, "pitches": [60, 60, 72], "omax": 3, "dmax": 2},
+                {"mode": "ts", "divs": 4, "pitches": [60, 64], "ts0": [2, 2], "ts1": [2, 4]}, {"mode": "ts", "divs": 2, "pitches": [60, 64, 67], "ts0": [6, 8], "ts1": [9, 8], "omax": 2, "dmax": 3},
+                {"mode": "ts", "divs": 2, "pitches": [60, 64], "ts0": [4, 4], "ts1": None}]
+    return out
+
+
 MODELS = ["syminterp", "symdict", "symnp:partitura.score,partitura.utils.generic,partitura.utils.music", "symppoly"]
 HARNESSES = [
     H("part_array", make_part_array, _part_inst, models=MODELS, budget={"quick": 200, "thorough": 1200},
@@ -219,10 +311,18 @@ HARNESSES = [
       bounds="one part, two measures, a two-note tie chain with symbolic split, a grace note, a note without voice/"
              "staff, one rest; symbolic onsets/durations (divs), steps, voices 1..3, fifths; listed divisions, meters "
              "and include_* option tuples",
-      outside="float32 rounding of the f4 columns (tolerance 1e-6); division changes inside a part; note_array_to_score"),
+      outside="float32 rounding of the f4 columns (tolerance 1e-6); division changes inside a part"),
     H("part_list", make_part_list, _list_inst, models=MODELS, budget={"quick": 200, "thorough": 900},
       functions=["music.note_array_from_part_list", "Score.note_array", "music.note_array_from_part"],
       bounds="2-3 parts with different divisions (lcm above all of them), optional empty first part, one symbolic "
              "note + one fixed note each, unique_id_per_part on/off",
       outside="part groups; performed parts"),
+    H("inverse", make_inverse, _inv_inst, models=[], budget={"quick": 300, "thorough": 1500}, reals_only=False,
+      functions=["note_array_to_score.note_array_to_score", "create_divs_from_beats", "create_beats_from_divs", "create_part",
+                 "estimate_voices", "estimate_spelling", "score.add_measures", "score.tie_notes", "music.note_array_from_part"],
+      bounds="1-3 notes with concrete pitches, symbolic onset / duration on an integer grid (0..4 divisions, realised: the "
+             "solver enumerates the grid), array kinds div (with divs argument) / beat / both / both + time-signature "
+             "columns with a signature change at the second barline (beat / signature columns compared when a note starts on "
+             "that barline: the array does not say where a signature changes); listed divisions",
+      outside="negative onsets (anacrusis), key-signature columns, given voices / spelling, more than 3 notes"),
 ]
